@@ -27,9 +27,28 @@ Definition check (c : case) : bool :=
     | None => false
     end.
 
-Fixpoint mismatches_from (i : nat) (cs : list case) : list nat :=
+(* rebase-only runs: the image has layers 1..n with the history the generator wrote; the old base is its first layer with
+   the history up to and including that layer's line; the new base is one layer (id 900) with one history line (id 900) *)
+From Verif Require Import Model.C13_Rebase.
+Fixpoint upto_first_layer (h : list (bool * nat)) : list (bool * nat) :=
+  match h with
+  | [] => []
+  | e :: h' => if fst e then e :: upto_first_layer h' else [e]
+  end.
+Definition check_rebase (n : nat) (hist : list (bool * nat)) (lay ho : list nat) : bool :=
+  let ids := map S (seq 0 n) in
+  match rebase nat nat nat Nat.eqb Nat.eqb Nat.eqb (mkImg _ _ _ ids ids hist)
+               (mkImg _ _ _ (firstn 1 ids) (firstn 1 ids) (upto_first_layer hist)) (mkImg _ _ _ [900] [900] [(false, 900)]) with
+  | Some r => nats_eqb (layers _ _ _ r) lay && nats_eqb (map snd (history _ _ _ r)) ho
+  | None => false
+  end.
+
+Inductive xcase := XM (c : case) | XRB (n : nat) (hist : list (bool * nat)) (lay ho : list nat).
+Definition xcheck (x : xcase) : bool := match x with XM c => check c | XRB n h l o => check_rebase n h l o end.
+
+Fixpoint mismatches_from (i : nat) (cs : list xcase) : list nat :=
   match cs with
   | [] => []
-  | c :: cs' => if check c then mismatches_from (S i) cs' else i :: mismatches_from (S i) cs'
+  | c :: cs' => if xcheck c then mismatches_from (S i) cs' else i :: mismatches_from (S i) cs'
   end.
 Definition mismatches := mismatches_from 0.
